@@ -11,6 +11,7 @@ import (
 	"math/rand"
 	"runtime"
 	"strconv"
+	"strings"
 	"sync"
 	"time"
 )
@@ -49,6 +50,9 @@ type Controller struct {
 	rnd      *rand.Rand
 	Delay    int // probability (percent) of a random delay at a point
 	MaxUs    int // maximum delay in microseconds
+	Keep     int // record at most this many occurrences of each noisy point (0 = all)
+	total    int
+	lastLoop string
 	Rules    []*Rule
 
 	// ext serialises: command delivery by the harness, ensureInactive, go activation and
@@ -89,6 +93,11 @@ func goid() int64 {
 	id, _ := strconv.ParseInt(string(f[1]), 10, 64)
 	return id
 }
+
+// noisy points are counted but no longer recorded once Keep occurrences have been logged (a search that
+// floods iterations would otherwise produce traces of tens of thousands of events)
+var noisy = map[string]bool{"iter.stored": true, "iter.published": true, "uci.fwd.pv": true, "uci.loop.ponder": true,
+	"uci.loop.idle": true, "stub.enter": true, "stub.result": true, "out": true}
 
 var opens = map[string]bool{"uci.inactive.begin": true, "uci.go.analyzed": true, "uci.complete.try": true}
 var closes = map[string]bool{"uci.inactive.end": true, "uci.go.activated": true, "uci.complete.done": true}
@@ -162,8 +171,14 @@ func (c *Controller) Handle(name string, kv ...any) {
 	if ev.Args == nil {
 		ev.Args = []any{}
 	}
-	c.events = append(c.events, ev)
 	c.counts[name]++
+	c.total++
+	if ev.Role == "loop" {
+		c.lastLoop = name
+	}
+	if !(c.Keep > 0 && noisy[name] && c.counts[name] > c.Keep) {
+		c.events = append(c.events, ev)
+	}
 	c.cond.Broadcast()
 	// numbering: search goroutines and forwarders are numbered in the order they record their
 	// first point; the loop is held (a delay, hence a legal schedule) until the goroutine it has
@@ -225,12 +240,14 @@ func (c *Controller) RoleIndex(kind string) int {
 }
 
 func (c *Controller) loopIdleLocked() bool {
-	for i := len(c.events) - 1; i >= 0; i-- {
-		if c.events[i].Role == "loop" {
-			return c.events[i].Name == "uci.loop.idle"
-		}
-	}
-	return false
+	return c.lastLoop == "uci.loop.idle"
+}
+
+// Total is the number of points reached so far (recorded or not).
+func (c *Controller) Total() int {
+	c.mu.Lock()
+	defer c.mu.Unlock()
+	return c.total
 }
 
 // LoopIdle reports whether the loop's last recorded point is its idle point.
@@ -294,8 +311,17 @@ func (c *Controller) Mark(name string, kv ...any) {
 	if kv == nil {
 		kv = []any{}
 	}
-	c.events = append(c.events, Event{Seq: len(c.events) + 1, G: 0, Role: "harness", Name: name, Args: kv})
 	c.counts[name]++
+	c.total++
+	keep := !(c.Keep > 0 && noisy[name] && c.counts[name] > c.Keep)
+	if name == "out" && len(kv) > 0 {
+		if line, ok := kv[0].(string); ok && !strings.HasPrefix(line, "info") {
+			keep = true
+		}
+	}
+	if keep {
+		c.events = append(c.events, Event{Seq: len(c.events) + 1, G: 0, Role: "harness", Name: name, Args: kv})
+	}
 	c.cond.Broadcast()
 	c.mu.Unlock()
 }
@@ -307,12 +333,7 @@ func (c *Controller) quiescentLocked() bool {
 		c.counts["uci.complete.try"] != c.counts["uci.complete.done"] {
 		return false
 	}
-	for i := len(c.events) - 1; i >= 0; i-- {
-		if c.events[i].Role == "loop" {
-			return c.events[i].Name == "uci.loop.idle" || c.events[i].Name == "uci.loop.exit"
-		}
-	}
-	return true
+	return c.lastLoop == "" || c.lastLoop == "uci.loop.idle" || c.lastLoop == "uci.loop.exit"
 }
 
 // WaitQuiescent waits for quiescence to hold continuously for the settle time.
